@@ -14,6 +14,19 @@ def check(ctx):
     cov_off = dict(ctx.coverage)
     gencore.analyze(ctx, ctx.tier, "tokens")
     ctx.coverage["offset_pass"] = {k: cov_off[k] for k in ("t3_failures_total", "t3_known_class_WsNonAtomic") if k in cov_off}
+    # the runtime's own repetitions and sequences with the SKIP flag on and off (bounds family of the catalogue: RepeatMin /
+    # RepeatMinMax for all MIN, MAX; these are what counted repetitions become with pest_optimizer = false): where the skip is
+    # made and given back = the full-backtracking reference, on the parse AND the check path
+    from .. import core, rtcat
+    envs, run = core.core_run(ctx.tier)
+
+    def t3_skip(sid, f, x, a):
+        got = rtcat.p_core(f["P"])
+        if got != a:
+            return "skip positions: parse gives %s but the reference gives %s" % (got[:160], (a or "")[:160])
+        return rtcat.c_vs_ref(f["C"], a)
+    core.scan(ctx, envs, run, ("bounds",), t3_skip, lambda sid, f, a: " " in bytes.fromhex(f["_hex"] if f["_hex"] != "-" else "").decode("utf8", "replace"),
+              "implicit skipping off its spec (runtime repetition / sequence)")
     # one KNOWN-FINDING line per class
     ctx.known = ctx.known[:1]
     ctx.rule = ("kind-nesting family: k1{ k2{ body } } (thorough: k1{ k2{ k3{ body } } }) for all tuples of the five rule kinds x bodies "
